@@ -33,6 +33,7 @@ FLOORS['quick']['declared:rowcol'] = 30
 FLOORS['quick']['failed_builds'] = 50
 FLOORS['quick']['graph_exports'] = 20
 FLOORS['quick']['real_book_cases'] = 20
+FLOORS['quick']['formula_cells_overwritten'] = 100
 FLOORS['quick']['real_read_events'] = 1500
 ASSUMPTIONS = [
     'computed references (OFFSET / INDIRECT) are outside the statement and are not generated',
@@ -187,6 +188,31 @@ def influence(ctx, comp, spec, meta, rng, base):
     return found
 
 
+def overwrite_a_formula(ctx, comp, spec, meta):
+    """a value written over a formula cell: the cell is still read by its dependants, so it keeps its edges to them"""
+    members = wb.array_members(spec)
+    for x in meta['order']:
+        if x not in meta['formulas'] or x in members or meta['formulas'][x]['form'] in ('cse', 'cse-consumer'):
+            continue
+        deps = [d for d in wbgen.dependants(meta, x) if d in meta['formulas'] and d not in members]
+        if not deps or x not in comp.cell_map:
+            continue
+        STATE.update(found=[], reads=set())
+        STATE['comp'] = comp
+        try:
+            o = wb.outcome(comp.set_value, x, 7.25)
+            if o[0] == 'x':
+                return []
+            for d in deps:
+                wb.outcome(comp.evaluate, d)
+        finally:
+            STATE['comp'] = None
+        ctx.count('formula_cells_overwritten')
+        found = list(STATE['found']) + check_read_edges(ctx, comp)
+        return [(k + '/after-a-value-was-written-over-a-formula', m, c) for k, m, c in found]
+    return []
+
+
 def one_workbook(ctx, spec, meta, order, config='mem', rng=None):
     install()
     STATE.update(ctx=ctx, meta=meta, spec=spec, found=[], reads=set())
@@ -222,6 +248,8 @@ def one_workbook(ctx, spec, meta, order, config='mem', rng=None):
         found += quiescent(ctx, comp, spec, meta)
         if rng is not None:
             found += influence(ctx, comp, spec, meta, rng, base)
+        if not found:
+            found += overwrite_a_formula(ctx, comp, spec, meta)
     else:
         ctx.count('workbooks_with_failing_cells')
     ctx.count('workbooks')
